@@ -113,20 +113,21 @@ type Exec struct {
 	timers []*timer
 	ntimer int
 
-	locks       map[*Value]*lockState
-	conds       map[*Value]*condState
-	wgs         map[*Value]*wgState
-	sems        map[*Value]*semState
-	onces       map[*Value]bool
-	nmap        int
-	intMode     bool
-	maxGap      int                 // most instructions executed between two signs of progress
-	progressAt  int                 // e.steps at the last sign of progress (see livelock)
-	goTimers    map[*Value]*goTimer // time.Timer structs made by NewTimer / AfterFunc
-	blsInvalid  map[string]bool     // public key bytes the harness declared undecodable
-	blsVerifies []*Term             // results of the BLS signature verifications made on this path (symbolic)
-	bigHuge     int                 // big.Int values outside the modelled range met so far
-	fpErrN      int                 // fresh rounding-error variables of the relaxed float64 model (Int mode)
+	locks            map[*Value]*lockState
+	conds            map[*Value]*condState
+	wgs              map[*Value]*wgState
+	sems             map[*Value]*semState
+	onces            map[*Value]bool
+	nmap             int
+	intMode          bool
+	maxGap           int                 // most instructions executed between two signs of progress
+	progressAt       int                 // e.steps at the last sign of progress (see livelock)
+	quickFeasibility bool                // the query in progress decides a branch only (see feasible)
+	goTimers         map[*Value]*goTimer // time.Timer structs made by NewTimer / AfterFunc
+	blsInvalid       map[string]bool     // public key bytes the harness declared undecodable
+	blsVerifies      []*Term             // results of the BLS signature verifications made on this path (symbolic)
+	bigHuge          int                 // big.Int values outside the modelled range met so far
+	fpErrN           int                 // fresh rounding-error variables of the relaxed float64 model (Int mode)
 
 	opts ExecOpts
 
@@ -231,10 +232,12 @@ func (e *Exec) feasible(extra ...*Term) Verdict {
 	lits := make([]*Term, 0, len(e.pc)+len(extra))
 	lits = append(lits, e.pc...)
 	lits = append(lits, extra...)
-	// a feasibility question left unanswered is resolved by keeping the branch (sound): no need for the
-	// longer second and third attempts that an assertion gets
+	// a branch-feasibility question left unanswered is resolved by keeping the branch (sound): no need
+	// for the longer second and third attempts that assertions and obligations get
 	saved := e.solver.noRetry
-	e.solver.noRetry = true
+	if e.quickFeasibility {
+		e.solver.noRetry = true
+	}
 	v := e.solver.Check(lits)
 	e.solver.noRetry = saved
 	if v == Unknown {
@@ -281,7 +284,10 @@ func (e *Exec) choose(kind string, alts []*Term) int {
 			feas = append(feas, i)
 			continue
 		}
-		if e.feasible(a) != Unsat {
+		e.quickFeasibility = true
+		fv := e.feasible(a)
+		e.quickFeasibility = false
+		if fv != Unsat {
 			feas = append(feas, i)
 		}
 	}
